@@ -279,7 +279,7 @@ impl Monitor for C01 {
          composable pairs built over f's target type with boundary nodes shared/repeated, and non-composable pairs \
          (length mismatch, single-label mismatch, unrelated). Each pair is composed through Arrow::compose and `>>`; \
          oracle = model pushout + isomorphism search with pinned interfaces. A third of the random pairs is also composed through the lax representation (both operands carrying pending label-consistent unifications; lax compose and >>), the composite quotiented on the model side and compared with the gluing of the quotiented operands. non-trivial = types match and the shared \
-         boundary is non-empty, or a hostile-corpus class; distinct = hash of the plain-model pair."
+         boundary is non-empty, or a hostile-corpus class; distinct = hash of the plain-model pair. Also: the same pairs over String labels (non-Copy) and over unit labels, and a mismatch by a permuted boundary type."
     }
     fn corpus_len(&self) -> u64 {
         corpus().len() as u64
